@@ -45,3 +45,26 @@ impl<const K: u64> Hasher for Sim32<K> {
 pub type SimA = SimHasher<0x1234_5678_9abc_def1>;
 pub type SimB = SimHasher<0x0f1e_2d3c_4b5a_6978>;
 pub type Sim32A = Sim32<0x1234_5678_9abc_def1>;
+
+/// "already hashed" input: the hash of an integer is the integer itself (low bits carry the differences)
+#[derive(Default)]
+pub struct IdentHasher(u64);
+impl Hasher for IdentHasher {
+    fn write(&mut self, bytes: &[u8]) {
+        for b in bytes {
+            self.0 = (self.0 << 8) | (*b as u64);
+        }
+    }
+    fn write_u64(&mut self, i: u64) {
+        self.0 = i;
+    }
+    fn write_u32(&mut self, i: u32) {
+        self.0 = i as u64;
+    }
+    fn write_usize(&mut self, i: usize) {
+        self.0 = i as u64;
+    }
+    fn finish(&self) -> u64 {
+        self.0
+    }
+}
